@@ -1,6 +1,7 @@
 """C12 - Savefiles (narrow structural claim; DESIGN.md section 2, C12)."""
 from .. import astlib as A
 from ..facts import AnalysisBroken
+from .. import fdeval as FD
 from ..rules import metakeys as MK
 from ..rules import oscformat as OF
 from ..rules import sugar as S
@@ -241,6 +242,130 @@ def run(ctx):
     # ---- R12.8 (= R13.6)
     from . import C13 as _C13
     _C13.self_edge_obligation(ctx, usv, "R12.8")
+
+    # ---- R12.10: the two header lines, by evaluation
+    ctx.rule("R12.10", "HEADER (evaluated): load_from_file, interpreted with a model of sscanf on probe files, goes on to dispatch the messages only after both header lines scanned completely with the exact application name and version numbers up to 255, and returns a negative value otherwise - whatever an earlier scan left in its variables")
+    from ..rules import scanfmodel as SM10
+    fl10 = us.function("load_from_file")
+    H1 = "% RT OSC v0.3.1 savefile\n"
+    body10 = "/volume 100\n/pan -5\n"
+    files10 = [("complete header", H1 + "% demoapp v1.2.3\n" + body10, True),
+               ("second line without version", H1 + "% demoapp\n" + body10, False),
+               ("second line with a truncated version", H1 + "% demoapp v1.2\n" + body10, False),
+               ("second line without the v", H1 + "% demoapp 1.2.3\n" + body10, False),
+               ("another application", H1 + "% other v1.2.3\n" + body10, False),
+               ("application name is a prefix of the file's", H1 + "% demoappx v1.2.3\n" + body10, False),
+               ("file's application name is a prefix", H1 + "% demo v1.2.3\n" + body10, False),
+               ("application version above 255", H1 + "% demoapp v1.2.300\n" + body10, False),
+               ("first line with a truncated version", "% RT OSC v0.3 savefile\n% demoapp v1.2.3\n" + body10, False),
+               ("first line without the v", "% RT OSC 0.3.1 savefile\n% demoapp v1.2.3\n" + body10, False),
+               ("library version above 255", "% RT OSC v0.3.256 savefile\n% demoapp v1.2.3\n" + body10, False),
+               ("empty file", "", False)]
+    bad10 = []
+
+    class _Reached(Exception):
+        pass
+    for name10, text10, accept10 in files10:
+        TB, AB = 1 << 16, 1 << 20
+        bufs10 = {}
+        holder10 = {}
+
+        def deref10(a_, n_, text10=text10):
+            if TB <= a_ <= TB + len(text10):
+                return ord(text10[a_ - TB]) if a_ - TB < len(text10) else 0
+            if AB <= a_ <= AB + 7:
+                return ord("demoapp"[a_ - AB]) if a_ - AB < 7 else 0
+            raise FD.Unknown("read at %#x" % a_, n_)
+
+        def sval10(v_, text10=text10):
+            if isinstance(v_, tuple) and v_[0] == "buf":
+                return bufs10.get(v_[1], "")
+            if isinstance(v_, str):
+                return v_
+            if TB <= v_ <= TB + len(text10):
+                return text10[v_ - TB:]
+            if AB <= v_ <= AB + 7:
+                return "demoapp"[v_ - AB:]
+            raise FD.Unknown("string operand %r" % (v_,))
+
+        def hook10(n_, ev_):
+            k_ = n_.get("kind")
+            if k_ == "StringLiteral":
+                return A.string_literal(n_)
+            if k_ == "ImplicitCastExpr" and n_.get("castKind") == "ArrayToPointerDecay":
+                inner = A.strip_casts(A.kids(n_)[0])
+                if A.string_literal(inner) is not None:
+                    return A.string_literal(inner)
+                if inner.get("kind") == "DeclRefExpr":
+                    return ("buf", inner["referencedDecl"]["id"])
+            if k_ == "UnaryOperator" and n_.get("opcode") == "&" and A.strip_casts(A.kids(n_)[0]).get("kind") == "DeclRefExpr":
+                return ("addr", A.ref_id(A.kids(n_)[0]))
+            if k_ == "CallExpr" and A.callee_name(n_) == "dispatch_printed_messages":
+                raise _Reached()
+            if k_ in ("CXXMemberCallExpr",) or (k_ == "CallExpr" and A.callee_name(n_) == "rtosc_current_version"):
+                return 0
+            if k_ == "DeclRefExpr" and (n_.get("referencedDecl") or {}).get("id") not in ev_.env:
+                d_ = us.by_id.get((n_.get("referencedDecl") or {}).get("id"))
+                if d_ is not None and d_.get("kind") == "VarDecl" and A.kids(d_) and "const" in (A.qtype(d_) or "") and us.parent.get(d_.get("id"), {}).get("kind") != "DeclStmt":
+                    return ev_.ev(A.kids(d_)[-1])        # a named constant of the unit
+            return NotImplemented
+
+        def call10(nm, vals, n_):
+            if nm == "sscanf":
+                at = vals[0]
+                fmt = vals[1]
+                if not isinstance(fmt, str) or not isinstance(at, int):
+                    raise FD.Unknown("sscanf with a computed format or source", n_)
+                got, _ = SM10.scan(sval10(at), fmt)
+                cnt = 0
+                for (c_, v_), o_ in zip(got, vals[2:]):
+                    if isinstance(o_, tuple) and o_[0] == "addr":
+                        holder10["ev"].env[o_[1]] = v_
+                    elif isinstance(o_, tuple) and o_[0] == "buf":
+                        bufs10[o_[1]] = v_ if isinstance(v_, str) else str(v_)
+                    else:
+                        raise FD.Unknown("sscanf output argument %r" % (o_,), n_)
+                    if c_ != "n":
+                        cnt += 1
+                return cnt
+            if nm in ("strcmp",):
+                a_, b_ = sval10(vals[0]), sval10(vals[1])
+                return (a_ > b_) - (a_ < b_)
+            if nm in ("strncmp",):
+                a_, b_ = sval10(vals[0])[:vals[2]], sval10(vals[1])[:vals[2]]
+                return (a_ > b_) - (a_ < b_)
+            if nm == "strlen":
+                return len(sval10(vals[0]))
+            fns_ = [f_ for f_ in us.functions.get(nm, []) if us.body(f_) is not None]
+            if len(fns_) == 1:
+                return holder10["ev"].call_function(us, fns_[0], vals)
+            raise FD.Unknown("call to %s" % nm, n_)
+        env10 = {}
+        for p_ in us.params(fl10):
+            t_ = (A.qtype(p_) or "").replace(" ", "")
+            if p_.get("name") == "appname" or (t_ == "constchar*" and p_ is not us.params(fl10)[0]):
+                env10[p_["id"]] = AB
+            elif t_ == "constchar*":
+                env10[p_["id"]] = TB
+            else:
+                env10[p_["id"]] = 0          # no dispatcher, ports / runtime / version are not looked at by the header code
+        ev10 = FD.Eval(env=env10, deref=deref10, node_hook=hook10, call=call10, max_steps=3000)
+        holder10["ev"] = ev10
+        try:
+            try:
+                ev10.run(us.body(fl10))
+                res10 = "falls off its end"
+            except FD._Return as r_:
+                res10 = r_.v
+            except _Reached:
+                res10 = "dispatches"
+        except FD.Unknown as e:
+            raise AnalysisBroken("R12.10: load_from_file not evaluable on `%s`: %s" % (name10, e))
+        ok10 = (res10 == "dispatches") if accept10 else (isinstance(res10, int) and res10 < 0)
+        if not ok10:
+            bad10.append({"file": name10, "outcome": res10, "expected": "dispatches the messages" if accept10 else "negative return"})
+    ctx.ob("R12.10", "header lines", not bad10, site=A.where(fl10), detail={"files": len(files10), "mismatches": bad10[:5]},
+           what="load_from_file on probe files: %s" % bad10[:3])
 
     # ---- R12.9: the preset-specific default key
     ctx.rule("R12.9", "KEY-CAPACITY: the buffer in which get_default_value composes the preset-specific key `default <value of the depended port>` holds the annotation, a blank and any printed 32-bit integer (11 characters) with its terminator - a shorter buffer looks a two-digit preset up under the key of another preset")
